@@ -166,6 +166,25 @@ CLAIMED.update({
             TECH + "; exhaustive enumeration of parameter alternatives by the solver", "4/C33"),
 })
 
+CLAIMED.update({
+    "C14": ("_marginalize_over_ancestors run in exact arithmetic on a SYMBOLIC moment table for n = 3..12 (..40 thorough): "
+            "out[k] = sum_a P(a|k,n) val[a] with the closed-form ancestor-count distribution; tau_expect and the variance "
+            "vector equal the Kingman moments recomputed from the definition for n up to 256 (320 thorough); gamma_approx / "
+            "lognorm_approx are exact moment matches for all mean, var > 0; add() stores (func_approx(mean,var), mean, var).",
+            "'Exact' in real arithmetic; the float64 variance vector is compared to the exact rational to 1e-9; n bounded.",
+            TECH + "; exact rational evaluation + polynomial identity normalisation", "4/C14"),
+    "C15": ("SpansBySamples on 9 skeletons (incl. missing samples, disjoint nodes, changing roots) with symbolic breakpoints: "
+            "every (samples in tree, samples below node) span equals the total length of the trees with that pair, spans sum "
+            "to the node span; mixture_expect_and_var / get_mixture_prior_params pass exactly the span-weighted mixture "
+            "mean/variance of symbolic per-(T,k) priors to func_approx.",
+            "tskit tree traversal is real; only Tree.interval/span are symbolic; no unary nodes.", TECH, "4/C15"),
+    "C16": ("fill_priors / make_discretised_prior with symbolic prior parameters, coalescent grid and 1-2 epoch sizes, "
+            "uninterpreted monotone cdfs: grid = to_natural(coalescent grid) (= sorted user grid when explicit), rows 0 at "
+            "time 0, proportional to interval masses, in [0,1] with max 1, samples without rows, invalid grids rejected.",
+            "Distribution functions uninterpreted (monotone, cdf(0)=0); create_timepoints' quantile thinning not decided.",
+            TECH, "4/C16"),
+})
+
 NOT_APPLICABLE = {
     "C02": "Every row/column effect of get_modified_ts happens inside tskit's C table routines on concrete "
            "arrays; no symbolic input reaches a branch of tsdate code, so there is nothing for a solver to "
